@@ -3,7 +3,7 @@ import copy
 from .. import gen
 from . import seqprop
 
-GEN = ['JsonUtilGen.v', 'Decisions.v']
+GEN = ['JsonUtilGen.v', 'Decisions.v', 'CacheGen.v']
 DECISIONS = ['Cache._complex_operation_to_json', 'Cache._operation_from_json', 'Cache._operation_to_json', 'Cache._operations_from_json', 'Cache._simple_operation_to_json', 'Cache.read_immutable', 'Cache.write']
 SITES = False
 ORDER = False
